@@ -280,7 +280,8 @@ class C04(Spec):
     theorems = tuple("Earverif.FileRender." + t for t in (
         "run_frame_count", "run_channel_count", "upmix_column", "dot_single", "overload_iff", "run_failed_iff",
         "quantise_within_step", "quantise_clips", "run_blocking_invariant", "file_frames_eq_input",
-        "file_render_blocks_frames")) + tuple("Earverif.FileRenderLayout." + t for t in (
+        "file_render_blocks_frames", "file_samples_eq_spec", "file_render_raises", "exSessionF_wf",
+        "file_frames_eq_input_fir", "file_render_blocks_frames_fir")) + tuple("Earverif.FileRenderLayout." + t for t in (
         "speakers_file_channels", "speakers_file_routing", "speakers_file_column_nnz", "upmix_check_iff",
         "speakers_file_check_clean_iff", "parse_speaker_spec", "parse_polar_spec", "screen_null_vs_absent",
         "screen_list_form", "with_real_layout_screen", "load_output_layout_screen", "inside_angle_range_iff",
@@ -578,9 +579,19 @@ REGISTRY = dict(
     "parsed file yields exactly FileRender.upmix / nChannels, identity without a speakers list), programme_lookup_total / "
     "lookupAll_ok / get_rendering_items_spec / get_rendering_items_lookup_error / apply_conversion_spec (an id that does "
     "not exist is KeyError, a wrong-type element ValueError, never a default; lookups, select, preprocess, convert in that "
-    "order). (3) Compositions: file_frames_eq_input (C02) and file_render_blocks_frames: reading with "
-    "iter_sample_blocks(blocksize >= 1) (C18 specIter via fileParts_spec: blocks tile the file), one render per block + one "
-    "get_tail (renderCalls_length), glue => exactly as many frames as the input, nChannels samples each, for every accepted "
+    "order). (3) Compositions with the C02/C03 renderer model that has the partitioned overlap-save convolver and the numpy "
+    "exceptions inside (renderAllOS): file_samples_eq_spec is the C04 sentence as ONE theorem from input audio + metadata "
+    "to file codes - for every session inside SessionWF (accepted timelines, block_size >= 1, tracks inside the input, "
+    "decode matrices of the right width, >= 1 decorrelator tap), every input and every blocksize >= 1: reading with "
+    "iter_sample_blocks(blocksize) (C18 specIter via fileParts_spec: blocks tile the file), one render per block + one "
+    "get_tail, scaling/upmixing/monitoring/writing succeeds, the written frames are EXACTLY quantise M applied to "
+    "exactOut = gain * U * RenderSpec.out(input) frame by frame (the sample-by-sample C03 specification; block structure, "
+    "latency compensation and tail gone), there are input.length of them with nChannels samples each, and every code is "
+    "within one quantisation step of exact*M inside full scale and +-M outside (quantise_within_step / quantise_clips); "
+    "file_frames_eq_input / file_render_blocks_frames are the frame-count corollaries, file_render_raises says a renderer "
+    "exception (e.g. IndexError for a track outside the file's channels) aborts the run; exSessionF_wf + a kernel-"
+    "evaluated three-frame file are the non-vacuity instances; *_fir are the older statements about the FIR stand-in "
+    "model. Holds for every accepted "
     "session. Tied to the code on every run: OfflineRenderDriver.run on generated files vs model and an independent "
     "reference (incl. deterministic gain 0 / negative / > 1 probes and the recorded render/get_tail call sequence); "
     "load_real_layout / load_speakers / with_real_layout / check_* / load_output_layout / lookup_adm_element / "
